@@ -46,13 +46,14 @@ type aval struct {
 	c     constant.Value
 	n     int
 	tup   []aval
-	elems []aval        // slice contents, or struct fields for kStruct
-	ptrOf *aval         // for pointers into the fresh heap: pointee
-	notes []string      // provenance notes (sorted set), e.g. error sentinels
-	dyn   types.Type    // dynamic type when the value sits in an interface
-	fn    *ssa.Function // function value
-	alloc *ssa.Alloc    // identity of the fresh cell a pointer refers to
-	tm    time.Time     // kTime
+	elems []aval          // slice contents, or struct fields for kStruct
+	ptrOf *aval           // for pointers into the fresh heap: pointee
+	notes []string        // provenance notes (sorted set), e.g. error sentinels
+	dyn   types.Type      // dynamic type when the value sits in an interface
+	fn    *ssa.Function   // function value
+	fns   []*ssa.Function // one of several known functions (join of distinct function values; sorted)
+	alloc *ssa.Alloc      // identity of the fresh cell a pointer refers to
+	tm    time.Time       // kTime
 }
 
 var (
@@ -161,6 +162,42 @@ func eqDyn(a, b types.Type) bool {
 	return types.Identical(a, b)
 }
 
+func fnSet(a aval) []*ssa.Function {
+	if a.fn != nil {
+		return []*ssa.Function{a.fn}
+	}
+	return a.fns
+}
+
+func eqFns(a, b []*ssa.Function) bool {
+	if len(a) != len(b) {
+		return false
+	}
+	for i := range a {
+		if a[i] != b[i] {
+			return false
+		}
+	}
+	return true
+}
+
+func unionFns(a, b []*ssa.Function) []*ssa.Function {
+	out := append([]*ssa.Function{}, a...)
+	for _, f := range b {
+		dup := false
+		for _, g := range out {
+			if f == g {
+				dup = true
+			}
+		}
+		if !dup {
+			out = append(out, f)
+		}
+	}
+	sort.Slice(out, func(i, j int) bool { return fnKey(out[i]) < fnKey(out[j]) })
+	return out
+}
+
 func eqVals(a, b []aval) bool {
 	if len(a) != len(b) {
 		return false
@@ -195,7 +232,7 @@ func eq(a, b aval) bool {
 		if a.ptrOf != nil && !eq(*a.ptrOf, *b.ptrOf) {
 			return false
 		}
-		return eqNotes(a.notes, b.notes) && eqDyn(a.dyn, b.dyn) && a.fn == b.fn && a.alloc == b.alloc
+		return eqNotes(a.notes, b.notes) && eqDyn(a.dyn, b.dyn) && a.fn == b.fn && a.alloc == b.alloc && eqFns(a.fns, b.fns)
 	case kTuple:
 		return eqVals(a.tup, b.tup)
 	case kStruct:
@@ -231,6 +268,12 @@ func join(a, b aval) aval {
 	}
 	if a.k == kNonNil && b.k == kNonNil {
 		r := aval{k: kNonNil, notes: unionNotes(a.notes, b.notes)}
+		// two (sets of) known functions: still one of a few known functions
+		if fa, fb := fnSet(a), fnSet(b); fa != nil && fb != nil {
+			if u := unionFns(fa, fb); len(u) <= 4 {
+				r.fns = u
+			}
+		}
 		if a.dyn != nil && b.dyn != nil && types.Identical(a.dyn, b.dyn) {
 			r.dyn = a.dyn
 		}
@@ -550,6 +593,7 @@ func (an *analyzer) runOnce(fn *ssa.Function, params []aval, free []aval, depth 
 	execBV := map[[2]int]bool{{0, 0}: true} // (block, version)
 	execEV := map[[4]int]bool{}             // (from, fromVersion, to, toVersion)
 	exitV := map[[2]int]bool{}              // (loop header, version): an edge leaving the loop from that version is executable
+	exitFrom := map[[3]int]bool{}           // (loop header, version, block): an edge leaving the loop from that block at that version is executable
 	// per-iteration contents of local cells that are stored inside an unrolled loop
 	// (a variable reassigned every iteration): see loadCell
 	type cellKey struct {
@@ -707,11 +751,31 @@ func (an *analyzer) runOnce(fn *ssa.Function, params []aval, free []aval, depth 
 	// iteration dominates the load, else the value the previous iteration left
 	// (what was stored before the loop for the first one).
 	loadCell := func(x *ssa.UnOp, a aval, b *ssa.BasicBlock, ver int) (aval, bool) {
-		L := loops[b.Index]
-		if L == nil || a.k != kNonNil || a.alloc == nil || a.ptrOf != nil || escapes(a.alloc) {
+		if len(loops) == 0 || a.k != kNonNil || a.alloc == nil || a.ptrOf != nil || escapes(a.alloc) {
 			return aval{}, false
 		}
 		al := a.alloc
+		L := loops[b.Index]
+		after := false // the load comes after the loop that stores the cell
+		if L == nil {
+			for _, st := range allStores[al] {
+				if SL := loops[st.Block().Index]; SL != nil {
+					if L != nil && SL != L {
+						return aval{}, false
+					}
+					L = SL
+				}
+			}
+			if L == nil || !fn.Blocks[L.header].Dominates(b) {
+				return aval{}, false
+			}
+			for _, st := range allStores[al] {
+				if loops[st.Block().Index] == nil && !(st.Block().Index == L.header || st.Block().Dominates(fn.Blocks[L.header])) {
+					return aval{}, false // also stored after / beside the loop
+				}
+			}
+			after = true
+		}
 		var inLoop []*ssa.Store
 		for _, st := range allStores[al] {
 			switch SL := loops[st.Block().Index]; {
@@ -771,6 +835,38 @@ func (an *analyzer) runOnce(fn *ssa.Function, params []aval, free []aval, depth 
 			return join(v, entry(i, k-1))
 		}
 		cell := func(i int) aval {
+			if after {
+				// the value at the moment the loop was left: over every executable exit edge
+				// (block p, iteration k), what iteration k stored before p, else what it started with
+				v := bot
+				for k := 0; k <= K; k++ {
+					for _, p := range fn.Blocks {
+						if !L.body[p.Index] || !exitFrom[[3]int{L.header, k, p.Index}] {
+							continue
+						}
+						stored := false
+						for _, st := range inLoop {
+							if affects(st, i) && (st.Block() == p || st.Block().Dominates(p)) {
+								stored = true
+							}
+						}
+						if stored {
+							if cur := memV[cellKey{al, L.header, k}]; cur != nil && i < len(cur) {
+								v = join(v, cur[i])
+							}
+							continue
+						}
+						e := entry(i, k)
+						if k == K {
+							if cur := memV[cellKey{al, L.header, K}]; cur != nil && i < len(cur) {
+								e = join(e, cur[i])
+							}
+						}
+						v = join(v, e)
+					}
+				}
+				return v
+			}
 			for _, st := range inLoop {
 				if affects(st, i) && dominatesInstr(st, x) {
 					if cur := memV[cellKey{al, L.header, ver}]; cur != nil && i < len(cur) {
@@ -829,9 +925,15 @@ func (an *analyzer) runOnce(fn *ssa.Function, params []aval, free []aval, depth 
 			}
 			execEdge[[2]int{from, to}] = true
 			res.execBlock[to] = true
-			if L := loops[from]; L != nil && loops[to] != L && !exitV[[2]int{L.header, curK}] {
-				exitV[[2]int{L.header, curK}] = true
-				changed = true
+			if L := loops[from]; L != nil && loops[to] != L {
+				if !exitV[[2]int{L.header, curK}] {
+					exitV[[2]int{L.header, curK}] = true
+					changed = true
+				}
+				if !exitFrom[[3]int{L.header, curK, from}] {
+					exitFrom[[3]int{L.header, curK, from}] = true
+					changed = true
+				}
 			}
 		}
 		for _, b := range fn.Blocks {
@@ -1245,6 +1347,10 @@ func (an *analyzer) runOnce(fn *ssa.Function, params []aval, free []aval, depth 
 							if v.k == kBot {
 								dead = true
 							}
+							// a value of unknown nil-ness returned only where a dominating test found it non-nil
+							if v.k == kTop && isNilable(r.Type()) && nilGuarded(fn, r, x) {
+								v = aval{k: kNonNil, notes: v.notes}
+							}
 							ri.vals = append(ri.vals, v)
 						}
 						if !dead {
@@ -1446,6 +1552,11 @@ func (an *analyzer) load(x *ssa.UnOp, a aval, mem map[*ssa.Alloc][]aval, escapes
 		}
 		if g.Pkg.Pkg.Path() == "time" && g.Name() == "UTC" {
 			return nonnil("tzloc:UTC|0")
+		}
+		if theProgram != nil {
+			if v, ok := theProgram.constGlobalValue(g); ok {
+				return v
+			}
 		}
 		return aval{k: kTop, notes: []string{"global:" + g.Pkg.Pkg.Name() + "." + g.Name()}}
 	}
@@ -1706,6 +1817,13 @@ func (an *analyzer) call(x *ssa.Call, get func(ssa.Value) aval, depth int, res *
 		}
 		if fv.fn != nil {
 			sc = fv.fn
+		} else if len(fv.fns) > 0 {
+			// one of a few known functions: the join of calling each
+			out := bot
+			for _, f := range fv.fns {
+				out = join(out, an.callResolved(x, c, f, args, nil, depth, res))
+			}
+			return out
 		} else {
 			res.calls = append(res.calls, callObs{site: x, name: "dynamic", args: args, depth: depth})
 			if an.dynModel != nil {
@@ -1727,6 +1845,11 @@ func (an *analyzer) call(x *ssa.Call, get func(ssa.Value) aval, depth int, res *
 			free = append(free, fv)
 		}
 	}
+	return an.callResolved(x, c, sc, args, free, depth, res)
+}
+
+// callResolved: the call of a known function (static callee or resolved function value).
+func (an *analyzer) callResolved(x *ssa.Call, c *ssa.CallCommon, sc *ssa.Function, args []aval, free []aval, depth int, res *result) aval {
 	res.calls = append(res.calls, callObs{site: x, callee: sc, name: short(sc), args: args, depth: depth})
 	if an.fnModel != nil {
 		if v, ok := an.fnModel(sc, args); ok {
